@@ -13,7 +13,7 @@
 //!             the result must be Err - or a model that passes gmm_ok - never a panic or a model
 //!             with non-finite parameters.
 use linfa::prelude::*;
-use linfa_clustering::{GaussianMixtureModel, GmmInitMethod};
+use linfa_clustering::{GaussianMixtureModel, GmmError, GmmInitMethod, KMeans};
 use ndarray::Array2;
 use rand::SeedableRng;
 use rand_xoshiro::Xoshiro256Plus;
@@ -38,6 +38,46 @@ struct FitOut {
     mu: Mat,
     cov: Vec<Mat>,
     prec: Vec<Mat>,
+    /// precisions_chol (a private field; read through the serde data model), empty when unavailable
+    pchol: Vec<Mat>,
+}
+
+/// the variant of GmmError, numbered in the order of errors.rs (1 = InvalidValue)
+fn err_kind(e: &GmmError) -> u64 {
+    match e {
+        GmmError::InvalidValue(_) => 1,
+        GmmError::LinalgError(_) => 2,
+        GmmError::EmptyCluster(_) => 3,
+        GmmError::LowerBoundError(_) => 4,
+        GmmError::NotConverged(_) => 5,
+        GmmError::KMeansError(_) => 6,
+        GmmError::LinfaError(_) => 7,
+        GmmError::MinMaxError(_) => 8,
+    }
+}
+
+/// precisions_chol of a fitted model: `serde_json::to_value` walks the serde data model without any text
+/// round trip, so the f64 values arrive exactly (non-finite ones arrive as null -> NaN)
+fn pchol_of(m: &GaussianMixtureModel<f64>) -> Vec<Mat> {
+    let v = match serde_json::to_value(m) {
+        Ok(v) => v,
+        Err(_) => return vec![],
+    };
+    let a = &v["precisions_chol"];
+    let dim: Vec<usize> = match a["dim"].as_array() {
+        Some(d) => d.iter().map(|x| x.as_u64().unwrap_or(0) as usize).collect(),
+        None => return vec![],
+    };
+    let data: Vec<f64> = match a["data"].as_array() {
+        Some(d) => d.iter().map(|x| x.as_f64().unwrap_or(f64::NAN)).collect(),
+        None => return vec![],
+    };
+    if dim.len() != 3 || data.len() != dim[0] * dim[1] * dim[2] {
+        return vec![];
+    }
+    (0..dim[0])
+        .map(|k| (0..dim[1]).map(|i| (0..dim[2]).map(|j| data[(k * dim[1] + i) * dim[2] + j]).collect()).collect())
+        .collect()
 }
 
 fn arr(rows: &[Vec<f64>]) -> Array2<f64> {
@@ -51,6 +91,11 @@ fn mats(a: &ndarray::Array3<f64>) -> Vec<Mat> {
 
 /// Ok(Ok(fit)) | Ok(Err(error message)) | Err(panic message)
 fn do_fit(x: &Array2<f64>, c: &Cfg) -> Result<Result<FitOut, String>, String> {
+    do_fit_k(x, c).map(|r| r.map_err(|e| e.1))
+}
+
+/// Ok(Ok(fit)) | Ok(Err((GmmError variant, error message))) | Err(panic message)
+fn do_fit_k(x: &Array2<f64>, c: &Cfg) -> Result<Result<FitOut, (u64, String)>, String> {
     let (x2, c2) = (x.clone(), c.clone());
     guarded(move || {
         let rng = Xoshiro256Plus::seed_from_u64(c2.seed);
@@ -82,9 +127,10 @@ fn do_fit(x: &Array2<f64>, c: &Cfg) -> Result<Result<FitOut, String>, String> {
                 mu: rows_of(&m.means().view()),
                 cov: mats(m.covariances()),
                 prec: mats(m.precisions()),
+                pchol: pchol_of(&m),
                 model: m,
             }),
-            Err(e) => Err(format!("{}", e).chars().take(160).collect()),
+            Err(e) => Err((err_kind(&e), format!("{}", e).chars().take(160).collect())),
         }
     })
 }
@@ -318,8 +364,8 @@ fn cmats(ms: &[Mat]) -> String {
 #[allow(clippy::too_many_arguments)]
 fn case_term(id: u64, k: usize, d: usize, reg: f64, x: &Mat, exact: bool, f: &FitOut, xproba: &Mat, q: &Mat, proba: &Mat, pred: &[usize]) -> String {
     format!(
-        "{{| c_id := {}; c_k := {}; c_d := {}; c_reg := {}; c_X := {}; c_exact := {}; c_weights := {}; c_means := {}; c_covs := {}; c_precs := {}; c_xproba := {}; c_query := {}; c_proba := {}; c_pred := {} |}}",
-        cn(id), cn(k as u64), cn(d as u64), sf64(reg), cmat64(x), cbool(exact), cvec64(&f.w), cmat64(&f.mu), cmats(&f.cov), cmats(&f.prec),
+        "Std {{| c_id := {}; c_k := {}; c_d := {}; c_reg := {}; c_X := {}; c_exact := {}; c_weights := {}; c_means := {}; c_covs := {}; c_precs := {}; c_pchol := {}; c_xproba := {}; c_query := {}; c_proba := {}; c_pred := {} |}}",
+        cn(id), cn(k as u64), cn(d as u64), sf64(reg), cmat64(x), cbool(exact), cvec64(&f.w), cmat64(&f.mu), cmats(&f.cov), cmats(&f.prec), cmats(&f.pchol),
         cmat64(xproba), cmat64(q), cmat64(proba), cvecn(pred)
     )
 }
@@ -343,6 +389,126 @@ fn desc_json(stream: &str, kind: u64, n: usize, d: usize, c: &Cfg, extra: &str, 
     format!(
         "{{\"stream\": {}, \"kind\": {}, \"n\": {}, \"d\": {}, \"k\": {}, \"reg_covar\": {:e}, \"tolerance\": {:e}, \"max_n_iterations\": {}, \"n_runs\": {}, \"init\": {}, \"rng_seed\": {}, {}\"X_first_row\": {:?}}}",
         jstr(stream), kind, n, d, c.k, c.reg, c.tol, c.max_iter, c.n_runs, jstr(if c.random_init { "Random" } else { "KMeans" }), c.seed, extra, x0
+    )
+}
+
+
+// ------------------------------------------------------------------------------------------------
+// fit stream: whole-fit model (C10/FitModel.v) against the implementation on degenerate exact inputs
+
+/// distinct lattice centres (coordinates in -2..2, scaled by 1024 by the callers)
+fn lattice_centres(r: &mut Sm64, k: usize, d: usize) -> Vec<Vec<i64>> {
+    let mut centres: Vec<Vec<i64>> = Vec::new();
+    let mut guard = 0;
+    while centres.len() < k && guard < 1000 {
+        guard += 1;
+        let c: Vec<i64> = (0..d).map(|_| r.range(-2, 2)).collect();
+        if !centres.contains(&c) {
+            centres.push(c);
+        }
+    }
+    centres
+}
+
+/// data families of the fit stream; returns (rows, intended component of every row)
+///   0 separated dyadic blobs (as the exact stream)      1 collapsed: every blob is one point repeated
+///   2 axis crosses (diagonal sample covariances)        3 fewer distinct points than components
+///   4 one blob with a constant feature                  5 one blob (one component, Random initialiser)
+fn gen_fit_data(r: &mut Sm64, fk: u64, k: usize, d: usize) -> (Mat, Vec<usize>) {
+    let mut rows: Mat = Vec::new();
+    let mut lab: Vec<usize> = Vec::new();
+    match fk {
+        1 | 3 => {
+            let cs = lattice_centres(r, k, d);
+            let single = r.chance(0.3);
+            for (b, c) in cs.iter().enumerate() {
+                let p: Vec<f64> = (0..d).map(|j| c[j] as f64 * 1024.0 + r.range(-16, 16) as f64 / 8.0).collect();
+                // family 3 also produces fewer observations than components (every location once)
+                let reps = if fk == 3 && single { 1 } else { r.range(2, 6) };
+                for _ in 0..reps {
+                    rows.push(p.clone());
+                    lab.push(b);
+                }
+            }
+        }
+        2 => {
+            let cs = lattice_centres(r, k, d);
+            for (b, c) in cs.iter().enumerate() {
+                let ctr: Vec<f64> = (0..d).map(|j| c[j] as f64 * 1024.0 + r.range(-16, 16) as f64 / 8.0).collect();
+                for j in 0..d {
+                    let a = *r.pick(&[0.125, 0.25, 0.5, 1.0]);
+                    for sgn in [-1.0, 1.0] {
+                        let mut p = ctr.clone();
+                        p[j] += sgn * a;
+                        rows.push(p);
+                        lab.push(b);
+                    }
+                }
+                for _ in 0..r.below(3) {
+                    rows.push(ctr.clone());
+                    lab.push(b);
+                }
+            }
+        }
+        4 => {
+            let (mut x, l) = gen_exact(r, 1, d);
+            let j = r.below(d as u64) as usize;
+            for row in x.iter_mut() {
+                row[j] = 1.25;
+            }
+            return (x, l);
+        }
+        _ => return gen_exact(r, k, d),
+    }
+    let mut idx: Vec<usize> = (0..rows.len()).collect();
+    r.shuffle(&mut idx);
+    (idx.iter().map(|&i| rows[i].clone()).collect(), idx.iter().map(|&i| lab[i]).collect())
+}
+
+/// the initial responsibilities of GaussianMixtureModel::new with the KMeans initialiser, obtained the way
+/// `new` obtains them (same public calls, same generator state): Ok(Ok(resp)) | Ok(Err(message)) | Err(panic)
+fn kmeans_init_resp(x: &Array2<f64>, k: usize, seed: u64) -> Result<Result<Mat, String>, String> {
+    let x2 = x.clone();
+    guarded(move || {
+        let rng = Xoshiro256Plus::seed_from_u64(seed);
+        let ds = DatasetBase::from(x2);
+        match KMeans::params_with_rng(k, rng).check().unwrap().fit(&ds) {
+            Ok(model) => {
+                let mut resp = vec![vec![0.0; k]; ds.records().nrows()];
+                for (i, idx) in model.predict(ds.records()).iter().enumerate() {
+                    resp[i][*idx] = 1.0;
+                }
+                Ok(resp)
+            }
+            Err(e) => Err(format!("{}", e)),
+        }
+    })
+}
+
+struct Probe {
+    max_iter: u64,
+    n_runs: u64,
+    /// 0 = Ok, 1..8 = GmmError variant, 100 = panic
+    kind: u64,
+    fit: Option<FitOut>,
+    xproba: Mat,
+    pred: Vec<usize>,
+}
+
+fn cpairs(t: &[(f64, f64)]) -> String {
+    format!("({})%float", clist(t, |p| format!("({}, {})", cf64(p.0), cf64(p.1))))
+}
+
+fn probe_term(p: &Probe) -> String {
+    let e: Mat = vec![];
+    let em: Vec<Mat> = vec![];
+    let (w, mu, cov, prec, pchol) = match &p.fit {
+        Some(f) => (cvec64(&f.w), cmat64(&f.mu), cmats(&f.cov), cmats(&f.prec), cmats(&f.pchol)),
+        None => (cvec64(&[]), cmat64(&e), cmats(&em), cmats(&em), cmats(&em)),
+    };
+    format!(
+        "{{| p_max_iter := {}; p_n_runs := {}; p_kind := {}; p_w := {}; p_mu := {}; p_cov := {}; p_prec := {}; p_pchol := {}; p_xproba := {}; p_pred := {} |}}",
+        cn(p.max_iter), cn(p.n_runs), cn(p.kind), w, mu, cov, prec, pchol, cmat64(&p.xproba), cvecn(&p.pred)
     )
 }
 
@@ -609,5 +775,138 @@ fn main() {
             }
         }
     }
-    out.finish("three streams: exact (dyadic separated blobs, hard responsibilities, bit-for-bit), general (8 data families x d 1..6 x k 1..4 x both initialisers x reg_covar), error (non-convergence, too many components, singular covariance, overflow, n < k); a case is non-trivial when k > 1 (exact stream: k > 1 or d > 1 and compared bit for bit; error stream: an Err was returned); distinct = distinct (data, k, stream) hashes");
+
+    // ---------------------------------------------------------------- fit stream
+    let n_fit = if thorough { 400 } else { 64 };
+    for _ in 0..n_fit {
+        let mut r = rng.fork();
+        let fk = r.below(6);
+        let d = 1 + r.below(3) as usize;
+        let mut k = match fk {
+            4 | 5 => 1,
+            _ => 1 + r.below(if d == 1 { 2 } else { 3 }) as usize,
+        };
+        let (x, lab) = gen_fit_data(&mut r, fk, k, d);
+        let blobs = 1 + *lab.iter().max().unwrap();
+        if fk == 3 {
+            k = blobs + 1 + r.below(2) as usize;
+        } else {
+            k = blobs;
+        }
+        let reg = match fk {
+            0 => *r.pick(&[0.0009765625, 1e-6, 1e-2, 0.25, 0.0]),
+            1 => *r.pick(&[0.0009765625, 0.25, 1e-6, 1e-2, 4.0, 0.0]),
+            2 => *r.pick(&[4.0, 25.0, 1.0, 0.25, 0.0]),
+            3 => *r.pick(&[1e-6, 0.0009765625, 0.0]),
+            4 => *r.pick(&[0.0, 0.0, 0.0009765625]),
+            _ => *r.pick(&[0.0009765625, 0.25, 1e-6]),
+        };
+        let random_init = fk == 5;
+        let seed = r.below(1 << 20);
+        let tol = *r.pick(&[1e-3, 1e-5, 1e-8]);
+        let xa = arr(&x);
+        let n = x.len();
+        // initial responsibilities as `new` draws them
+        let (init_kind, resp0): (u64, Mat) = if random_init {
+            // one component: u / u = 1 for every draw u > 0
+            (0, vec![vec![1.0]; n])
+        } else {
+            match kmeans_init_resp(&xa, k, seed) {
+                Ok(Ok(rp)) => (0, rp),
+                Ok(Err(_)) => (6, vec![]),
+                Err(_) => (100, vec![]),
+            }
+        };
+        // the model run is decidable (needs no exp / ln value besides the exact and the tabulated ones) when the
+        // initial partition is the intended one (well separated components reproduce hard responsibilities),
+        // when there is one component, or when the initialisation already fails
+        let decidable = match init_kind {
+            0 => {
+                let starved = (0..k).any(|c| resp0.iter().all(|row| row[c] == 0.0));
+                starved || k == 1 || one_hot_partition(&resp0).map_or(false, |p| same_partition(&p, &lab))
+            }
+            6 => true,
+            _ => false,
+        };
+        let mut plan: Vec<(u64, u64)> = vec![(100, 1)];
+        let pool = [(1, 1), (1, 3), (2, 1), (2, 2), (3, 2), (5, 3), (2, 3)];
+        let mut idx: Vec<usize> = (0..pool.len()).collect();
+        r.shuffle(&mut idx);
+        for &i in idx.iter().take(3) {
+            plan.push(pool[i]);
+        }
+        let mut tags: Vec<String> = vec!["stream_fit".into(), format!("fitkind_{}", fk), format!("k_{}", k), format!("d_{}", d), format!("init_{}", if random_init { "random" } else { "kmeans" })];
+        if reg == 0.0 { tags.push("reg_zero".into()); }
+        if decidable { tags.push("decidable".into()); }
+        // an intended component with at most d points has a rank-deficient covariance (finding F40 when reg_covar = 0)
+        if (0..blobs).any(|b| lab.iter().filter(|&&l| l == b).count() <= d) { tags.push("tiny_blob".into()); }
+        let t: Vec<&str> = tags.iter().map(|s| s.as_str()).collect();
+        let cfg0 = Cfg { k, reg, tol, max_iter: 100, n_runs: 1, random_init, seed };
+        let desc = desc_json("fit", fk, n, d, &cfg0, &format!("\"probes (max_n_iterations, n_runs)\": [{}], ", plan.iter().map(|p| format!("[{}, {}]", p.0, p.1)).collect::<Vec<_>>().join(", ")), &x[0]);
+        out.bump("stream_fit");
+        out.bump(&format!("fit_kind_{}", fk));
+        out.bump(&format!("fit_init_{}", match init_kind { 0 => "responsibilities", 6 => "kmeans_error", _ => "panic" }));
+        out.bump(if decidable { "fit_decidable" } else { "fit_not_decidable" });
+        let this = id;
+        id += 1;
+        let mut probes: Vec<Probe> = Vec::new();
+        for &(mi, nr) in plan.iter() {
+            let cfg = Cfg { max_iter: mi, n_runs: nr, ..cfg0.clone() };
+            let p = match do_fit_k(&xa, &cfg) {
+                Err(_) => Probe { max_iter: mi, n_runs: nr, kind: 100, fit: None, xproba: vec![], pred: vec![] },
+                Ok(Err((kd, _))) => Probe { max_iter: mi, n_runs: nr, kind: kd, fit: None, xproba: vec![], pred: vec![] },
+                Ok(Ok(f)) => {
+                    let (xp, pr) = match do_predict(&f.model, &xa) {
+                        Ok(v) => v,
+                        Err(e) => {
+                            out.rust_fail(this, 64, &t, &e, &desc);
+                            (vec![], vec![])
+                        }
+                    };
+                    Probe { max_iter: mi, n_runs: nr, kind: 0, fit: Some(f), xproba: xp, pred: pr }
+                }
+            };
+            out.bump(&format!("fit_probe_outcome_{}", match p.kind { 0 => "ok".to_string(), 100 => "panic".to_string(), e => format!("err_{}", e) }));
+            if p.kind == 100 {
+                out.rust_fail(this, 512, &t, &format!("fit panicked instead of returning an error (max_n_iterations {}, n_runs {})", mi, nr), &desc);
+            }
+            if p.kind == 0 && mi == 1 {
+                // a single EM iteration can never satisfy |change| < tolerance: the previous bound is -inf
+                out.rust_fail(this, 512, &t, "fit returned a model after a single EM iteration (it cannot have converged)", &desc);
+            }
+            if let Some(f) = &p.fit {
+                if !all_finite(f) {
+                    out.rust_fail(this, 512, &t, "fit returned a model with non-finite parameters", &desc);
+                }
+            }
+            probes.push(p);
+        }
+        // ln table: the implementation's own libm on the weights and the diagonal of precisions_chol of every
+        // returned model (C10/Corr.v checks every entry against an enclosure of the logarithm)
+        let mut lntab: Vec<(f64, f64)> = Vec::new();
+        for p in probes.iter() {
+            if let Some(f) = &p.fit {
+                let mut args: Vec<f64> = f.w.clone();
+                for m in f.pchol.iter() {
+                    for j in 0..m.len() {
+                        args.push(m[j][j]);
+                    }
+                }
+                for a in args {
+                    if a.is_finite() && a > 0.0 && !lntab.iter().any(|e| e.0 == a) {
+                        lntab.push((a, a.ln()));
+                    }
+                }
+            }
+        }
+        let dln2pi = d as f64 * f64::ln(2. * std::f64::consts::PI);
+        let term = format!(
+            "Fit {{| f_id := {}; f_k := {}; f_d := {}; f_reg := {}; f_tol := {}; f_X := {}; f_init := {}; f_resp0 := {}; f_dln2pi := {}; f_lntab := {}; f_decidable := {}; f_probes := [{}] |}}",
+            cn(this), cn(k as u64), cn(d as u64), sf64(reg), sf64(tol), cmat64(&x), cn(init_kind), cmat64(&resp0), sf64(dln2pi), cpairs(&lntab), cbool(decidable),
+            probes.iter().map(probe_term).collect::<Vec<_>>().join("; ")
+        );
+        let key = if decidable { Some(fnv_f64s(&x.concat(), (k as u64) << 8 | 4 | fk << 16)) } else { None };
+        out.case(this, &term, &t, &desc, key);
+    }
+    out.finish("four streams: exact (dyadic separated blobs, hard responsibilities, bit-for-bit), general (8 data families x d 1..6 x k 1..4 x both initialisers x reg_covar), error (non-convergence, too many components, singular covariance, overflow, n < k), fit (whole-fit model vs implementation on 6 degenerate exact families x 4 (max_n_iterations, n_runs) probes each: Ok / Err kind, parameters, precisions_chol, responsibilities); a case is non-trivial when k > 1 (exact stream: k > 1 or d > 1 and compared bit for bit; error stream: an Err was returned; fit stream: the model run is decidable); distinct = distinct (data, k, stream) hashes");
 }
